@@ -258,7 +258,9 @@ class Model:
         self.it = L.Interp(repo)
         self.reg = PolyRegistry()
         self.warned = []
+        from .lib_common import extras
         ext = {
+            **extras(L),
             "np": L.NPModel(_np_extra()),
             "warnings": L.namespace(
                 "warnings", warn=lambda *a, **k: self.warned.append(a)),
